@@ -252,7 +252,7 @@ fn vp_native_settings_flow() {
 #[test]
 fn vp_native_settings_sequences() {
     #[derive(Clone, Debug, PartialEq)]
-    struct M { max_headers: usize, max_redirections: u32, follow: bool, compress: bool, timeout: Option<u64>, read_timeout: u64, invalid_certs: bool, headers: Vec<(String, String)> }
+    struct M { max_headers: usize, max_redirections: u32, follow: bool, compress: bool, timeout: Option<u64>, read_timeout: u64, invalid_certs: bool, invalid_names: bool, headers: Vec<(String, String)> }
     impl M {
         fn set(&mut self, n: &str, v: &str) { let n = n.to_ascii_lowercase(); self.headers.retain(|(k, _)| *k != n); self.headers.push((n, v.to_string())); }
         fn append(&mut self, n: &str, v: &str) { self.headers.push((n.to_ascii_lowercase(), v.to_string())); }
@@ -261,12 +261,12 @@ fn vp_native_settings_sequences() {
     #[derive(Clone, Copy, Debug)]
     enum Op { SMaxH(usize, usize), SFollow(usize, bool), SCompress(usize, bool), SMaxR(usize, u32), SHeader(usize, &'static str, &'static str), SAppend(usize, &'static str, &'static str),
               SClone(usize), SGet(usize), BMaxH(usize), BFollow(bool), BCompress(bool), BMaxR(u32), BHeader(&'static str, &'static str), BAppend(&'static str, &'static str),
-              STimeout(usize, u64), SReadT(usize, u64), SCerts(usize, bool), BTimeout(u64), BCerts(bool) }
+              STimeout(usize, u64), SReadT(usize, u64), SCerts(usize, bool), BTimeout(u64), BCerts(bool), SNames(usize, bool), BNames(bool) }
     use Op::*;
     let alphabet = [SMaxH(0, 7), SMaxH(1, 9), SFollow(0, false), SCompress(0, false), SCompress(1, false), SMaxR(0, 2), SHeader(0, "X-A", "s1"), SHeader(1, "x-a", "s2"),
                     SAppend(0, "X-A", "s3"), SAppend(0, "Accept", "text/x"), SAppend(1, "X-A", "s4"), SClone(0), SGet(0), SGet(1), BMaxH(3), BFollow(false), BCompress(false), BCompress(true), BMaxR(1),
                     BHeader("x-a", "b1"), BAppend("X-A", "b2"), BHeader("User-Agent", "ua"), BAppend("accept", "b/acc"),
-                    STimeout(0, 3), SReadT(1, 7), SCerts(0, true), BTimeout(1), BCerts(true)];
+                    STimeout(0, 3), SReadT(1, 7), SCerts(0, true), BTimeout(1), BCerts(true), BCerts(false), SNames(0, true), BNames(true)];
     let check = |what: &str, seq: &[Op], p: &mut PreparedRequest<body::Empty>, m: &M| {
         let ctx = format!("{} after {:?}", what, seq);
         // what the request says on the wire is what its header map holds: every value of every name, in order
@@ -283,7 +283,7 @@ fn vp_native_settings_sequences() {
         let vals = |n: &str| -> Vec<String> { p.headers().get_all(n).iter().map(|v| v.to_str().unwrap().to_string()).collect() };
         assert_eq!((p.base_settings.max_headers, p.base_settings.max_redirections, p.base_settings.follow_redirects, p.base_settings.allow_compression),
                    (m.max_headers, m.max_redirections, m.follow, m.compress), "settings of {}", ctx);
-        assert_eq!((p.base_settings.timeout.map(|d| d.as_secs()), p.base_settings.read_timeout.as_secs(), p.base_settings.accept_invalid_certs), (m.timeout, m.read_timeout, m.invalid_certs), "timeouts / certificate flag of {}", ctx);
+        assert_eq!((p.base_settings.timeout.map(|d| d.as_secs()), p.base_settings.read_timeout.as_secs(), p.base_settings.accept_invalid_certs, p.base_settings.accept_invalid_hostnames), (m.timeout, m.read_timeout, m.invalid_certs, m.invalid_names), "timeouts / certificate flags of {}", ctx);
         assert_eq!(vals("x-a"), m.vals("x-a"), "X-A of {}", ctx);
         assert_eq!(vals("accept"), if m.vals("accept").is_empty() { vec!["*/*".to_string()] } else { m.vals("accept") }, "Accept of {}", ctx);
         if m.vals("user-agent").is_empty() { assert_eq!(vals("user-agent").len(), 1, "default User-Agent of {}", ctx); } else { assert_eq!(vals("user-agent"), m.vals("user-agent"), "User-Agent of {}", ctx); }
@@ -297,7 +297,7 @@ fn vp_native_settings_sequences() {
         for len in 1..=maxlen {
             if len < maxlen && idx[len..].iter().any(|&i| i != 0) { continue; }   // shorter sequences once
             let seq: Vec<Op> = idx[..len].iter().map(|&i| alphabet[i]).collect();
-            let base = M { max_headers: 100, max_redirections: 5, follow: true, compress: true, timeout: None, read_timeout: 30, invalid_certs: false, headers: vec![] };
+            let base = M { max_headers: 100, max_redirections: 5, follow: true, compress: true, timeout: None, read_timeout: 30, invalid_certs: false, invalid_names: false, headers: vec![] };
             let mut sessions: Vec<(crate::Session, M)> = vec![({ let mut s = crate::Session::new(); s.proxy_settings(crate::ProxySettings::builder().build()); s }, base.clone())];
             let mut builders: Vec<(Option<crate::RequestBuilder>, M)> = Vec::new();
             let mut valid = true;
@@ -316,6 +316,8 @@ fn vp_native_settings_sequences() {
                     SCerts(i, v) => { if let Some((s, m)) = sessions.get_mut(i) { s.danger_accept_invalid_certs(v); m.invalid_certs = v; } else { valid = false; } }
                     BTimeout(v) => { if let Some((b, m)) = builders.last_mut() { *b = Some(b.take().unwrap().timeout(std::time::Duration::from_secs(v))); m.timeout = Some(v); } else { valid = false; } }
                     BCerts(v) => { if let Some((b, m)) = builders.last_mut() { *b = Some(b.take().unwrap().danger_accept_invalid_certs(v)); m.invalid_certs = v; } else { valid = false; } }
+                    SNames(i, v) => { if let Some((s, m)) = sessions.get_mut(i) { s.danger_accept_invalid_hostnames(v); m.invalid_names = v; } else { valid = false; } }
+                    BNames(v) => { if let Some((b, m)) = builders.last_mut() { *b = Some(b.take().unwrap().danger_accept_invalid_hostnames(v)); m.invalid_names = v; } else { valid = false; } }
                     BMaxH(v) => { if let Some((b, m)) = builders.last_mut() { *b = Some(b.take().unwrap().max_headers(v)); m.max_headers = v; } else { valid = false; } }
                     BFollow(v) => { if let Some((b, m)) = builders.last_mut() { *b = Some(b.take().unwrap().follow_redirects(v)); m.follow = v; } else { valid = false; } }
                     BCompress(v) => { if let Some((b, m)) = builders.last_mut() { *b = Some(b.take().unwrap().allow_compression(v)); m.compress = v; } else { valid = false; } }
@@ -747,8 +749,11 @@ fn vp_native_stalled_body_is_an_error() {
 #[test]
 fn vp_native_body_delivered_as_it_arrives() {
     let mut cases = 0u64;
-    for framing in ["length", "close", "chunked-1", "chunked-2"] { for k in [0usize, 1, 2, 5, 9] { for bsize in [1usize, 3, 9, 10, 16, 8192] {
+    for framing in ["length", "close", "chunked-1", "chunked-2", "length+identity", "close+identity", "chunked-1+identity"] { for k in [0usize, 1, 2, 5, 9] { for bsize in [1usize, 3, 9, 10, 16, 8192] {
         if k == 0 && bsize != 1 { continue; }
+        // `+identity`: the same uncompressed body announced with a coding that is not a compression (Content-Encoding: identity)
+        let (framing, identity) = match framing.strip_suffix("+identity") { Some(f) => (f, true), None => (framing, false) };
+        if identity && !(k == 0 || k == 5) { continue; }
         let l = TcpListener::bind("127.0.0.1:0").unwrap();
         let port = l.local_addr().unwrap().port();
         let body: Vec<u8> = (0..10u8).map(|i| b'0' + i).collect();
@@ -758,6 +763,7 @@ fn vp_native_body_delivered_as_it_arrives() {
                 let mut r = BufReader::new(s.try_clone().unwrap());
                 loop { let mut h = String::new(); if r.read_line(&mut h).unwrap_or(0) == 0 || h == "\r\n" { break; } }
                 let head = match framing { "length" => "HTTP/1.1 200 OK\r\nContent-Length: 10\r\n\r\n", "close" => "HTTP/1.1 200 OK\r\n\r\n", _ => "HTTP/1.1 200 OK\r\nTransfer-Encoding: chunked\r\n\r\n" };
+                let head = if identity { head.replacen("\r\n\r\n", "\r\nContent-Encoding: identity\r\n\r\n", 1) } else { head.to_string() };
                 s.write_all(head.as_bytes()).ok();
                 if framing.starts_with("chunked") {
                     // the k bytes that "arrived" are complete chunks (one chunk, or two); the next size line is held back or cut
@@ -769,7 +775,7 @@ fn vp_native_body_delivered_as_it_arrives() {
                 std::thread::sleep(std::time::Duration::from_millis(8000));   // the server pauses "indefinitely"
             }
         });
-        let ctx = format!("{}-delimited body, server paused after {} of 10 body bytes, caller reads of {} bytes", framing, k, bsize);
+        let ctx = format!("{}-delimited body{}, server paused after {} of 10 body bytes, caller reads of {} bytes", framing, if identity { " with Content-Encoding: identity" } else { "" }, k, bsize);
         let t0 = std::time::Instant::now();
         let mut resp = crate::get(format!("http://127.0.0.1:{}/", port)).read_timeout(std::time::Duration::from_millis(4000)).send()
             .unwrap_or_else(|e| panic!("send() must return once the head has arrived ({}): {}", ctx, e));
